@@ -226,6 +226,13 @@ EvalFn(e, c) ==
                                  D == DocOf(F, c.n) IN
                              NS({Node(ND(c.n), i) : i \in UNION {ElemsWithId(D, t) : t \in toks}})
     [] name = "current"   -> NS({c.cur})
+    [] name = "document"  ->        \* XSLT 12.1, one argument: the root nodes of the documents the URIs name; c.docs = <<[uri, idx]>> lists
+                                    \* the documents this evaluation was given (idx = position in the forest); any other URI is outside the model
+                             LET uris == IF a[1].t = "ns" THEN {StringValue(F, x) : x \in a[1].v} ELSE {strArg(1)}
+                                 known == {c.docs[k].uri : k \in 1..Len(c.docs)} IN
+                             IF nargs # 1 THEN UnmV
+                             ELSE IF \E u \in uris : u \notin known THEN UnmV
+                             ELSE NS({Node(c.docs[k].idx, 1) : k \in {j \in 1..Len(c.docs) : c.docs[j].uri \in uris}})
     [] name = "key"       -> LET vals == IF a[2].t = "ns" THEN {StringValue(F, x) : x \in a[2].v}
                                           ELSE {ToStr(F, a[2])} IN
                              NS(KeyNodes(strArg(1), vals, ND(c.n), c))
